@@ -155,6 +155,8 @@ structure IH (env : Env) (fuel : Nat) : Prop where
   renderBlk : ∀ b st, Cons st → Cons (renderBlk env fuel b st).2
   condLoop : ∀ cs els st, Cons st → Cons (condLoop env fuel cs els st).2
   inLoop : ∀ sv o body i st, Cons st → Cons (inLoop env fuel sv o body i st).2
+  inLoopB : ∀ sv o w body i st, Cons st → Cons (inLoopB env fuel sv o w body i st).2
+  inBatch : ∀ sv o bp w body els cache st, (∀ f ∈ cache, ConsF f) → Cons st → Cons (inBatch env fuel sv o bp w body els cache st).2
   letLoop : ∀ binds body st, Cons st → Cons (letLoop env fuel binds body st).2
 
 theorem ih_zero (env : Env) : IH env 0 where
@@ -172,6 +174,8 @@ theorem ih_zero (env : Env) : IH env 0 where
   renderBlk := fun b st h => by unfold Render.renderBlk; exact h
   condLoop := fun cs els st h => by unfold Render.condLoop; exact h
   inLoop := fun sv o body i st h => by unfold Render.inLoop; exact h
+  inLoopB := fun sv o w body i st h => by unfold Render.inLoopB; exact h
+  inBatch := fun sv o bp w body els cache st _ h => by unfold Render.inBatch; exact h
   letLoop := fun binds body st h => by unfold Render.letLoop; exact h
 
 theorem invoke_cons (env : Env) (id : Nat) (r : Val) (st : St) (h : Cons st) : Cons (invoke env id r st).2 := by
@@ -541,6 +545,139 @@ theorem inLoop_step (env : Env) (fuel : Nat) (ih : IH env fuel) (sv : SeqVars) (
       · exact hg
 
 
+theorem inLoopB_step (env : Env) (fuel : Nat) (ih : IH env fuel) (sv : SeqVars) (o : InOpts) (w : BWin) (body : List Blk)
+    (i : Nat) (st : St) (h : Cons st) : Cons (inLoopB env (fuel + 1) sv o w body i st).2 := by
+  have key : ∀ (sv' sv'' : SeqVars) (st1 : St), Cons st1 →
+      Cons (match inIter env fuel sv' o body i st1 with
+        | (.ok p, st2) =>
+          (match inLoopB env fuel sv'' o w body (i + 1) st2 with
+           | (.ok ps, st3) => ((.ok (p :: ps) : Res (List Piece)), st3)
+           | r => r)
+        | (.raise e, st2) => (.raise e, st2)
+        | (.ret v, st2) => (.ret v, st2)
+        | (.oom, st2) => (.oom, st2)).2 := by
+    intro sv' sv'' st1 h1
+    have h2 := ih.inIter sv' o body i st1 h1
+    generalize inIter env fuel sv' o body i st1 = res at h2
+    obtain ⟨r, st2⟩ := res
+    cases r with
+    | ok p =>
+      simp only
+      have h3 := ih.inLoopB sv'' o w body (i + 1) st2 h2
+      generalize inLoopB env fuel sv'' o w body (i + 1) st2 = res3 at h3
+      obtain ⟨r3, st3⟩ := res3
+      cases r3 <;> exact h3
+    | raise e => exact h2
+    | ret v => exact h2
+    | oom => exact h2
+  simp only [inLoopB]
+  split
+  · exact h
+  · have hg : Cons (if env.guardOn = true then { st with trace := st.trace ++ [Event.gitem 0 i] } else st) := by
+      split <;> exact h
+    generalize (if env.guardOn = true then { st with trace := st.trace ++ [Event.gitem 0 i] } else st) = st0 at hg ⊢
+    split
+    · split
+      · exact ih.inLoopB _ _ _ _ _ _ hg
+      · exact hg
+    · apply key
+      split
+      · rename_i x fs hs
+        intro g hgm
+        rcases List.mem_cons.mp hgm with rfl | hgm
+        · trivial
+        · exact hg g (by rw [hs]; exact List.mem_cons_of_mem _ hgm)
+      · exact hg
+
+theorem cons_push_seq (st : St) (sv : SeqVars) (cache : List Frame) (hc : ∀ f ∈ cache, ConsF f) (h : Cons st) :
+    Cons { st with stack := (Frame.seq sv :: cache) ++ st.stack } := by
+  apply cons_pushn st _ h
+  intro f hf
+  rcases List.mem_cons.mp hf with rfl | hf
+  · trivial
+  · exact hc f hf
+
+theorem inBatch_step (env : Env) (fuel : Nat) (ih : IH env fuel) (sv0 : SeqVars) (o : InOpts) (bp : BatchP) (w : BWin)
+    (body : List Blk) (els : Option (List Blk)) (cache : List Frame) (st : St) (hc : ∀ f ∈ cache, ConsF f) (h : Cons st) :
+    Cons (inBatch env (fuel + 1) sv0 o bp w body els cache st).2 := by
+  unfold inBatch
+  dsimp only
+  apply cons_drop
+  split
+  · split
+    · exact ih.renderJoined _ _ (cons_push_seq st _ cache hc h)
+    · cases els with
+      | some e => exact ih.renderJoined _ _ (cons_push_seq st _ cache hc h)
+      | none => exact cons_push_seq st _ cache hc h
+  · split
+    · split
+      · exact ih.renderJoined _ _ (cons_push_seq st _ cache hc h)
+      · cases els with
+        | some e => exact ih.renderJoined _ _ (cons_push_seq st _ cache hc h)
+        | none => exact cons_push_seq st _ cache hc h
+    · have hl := ih.inLoopB sv0 o w body w.first _ (cons_push_seq st sv0 cache hc h)
+      generalize inLoopB env fuel sv0 o w body w.first { st with stack := (Frame.seq sv0 :: cache) ++ st.stack } = res at hl ⊢
+      obtain ⟨r, s⟩ := res
+      cases r with
+      | ok ps => dsimp only; split <;> exact hl
+      | raise e => exact hl
+      | ret x => exact hl
+      | oom => exact hl
+
+theorem sortKeyOf_cons (env : Env) (m : Bool) (k : Text) (x : Val) (st : St) (h : Cons st) : Cons (sortKeyOf env m k x st).2 := by
+  unfold sortKeyOf
+  dsimp only
+  split
+  · split <;> exact h
+  all_goals exact h
+
+theorem sortKeys_cons (env : Env) (m : Bool) (k : Text) (xs : List Val) (st : St) (h : Cons st) :
+    Cons (sortKeys env m k xs st).2 := by
+  induction xs generalizing st with
+  | nil => exact h
+  | cons x xs ih =>
+    unfold sortKeys
+    have h1 := sortKeyOf_cons env m k x st h
+    generalize sortKeyOf env m k x st = res at h1
+    obtain ⟨r, st'⟩ := res
+    cases r with
+    | ok key =>
+      dsimp only
+      have h2 := ih st' h1
+      generalize sortKeys env m k xs st' = res2 at h2
+      obtain ⟨r2, st''⟩ := res2
+      cases r2 <;> exact h2
+    | raise e => exact h1
+    | ret v => exact h1
+    | oom => exact h1
+
+theorem arrange_cons (env : Env) (o : InOpts) (x : InXOpts) (xs : List Val) (st : St) (h : Cons st) :
+    Cons (arrange env o x xs st).2 := by
+  unfold arrange
+  have hs : Cons (sortPart env o x xs st).2 := by
+    unfold sortPart
+    cases x.sortKey with
+    | none => exact h
+    | some k =>
+      dsimp only
+      have h1 := sortKeys_cons env o.mapping k xs st h
+      generalize sortKeys env o.mapping k xs st = res at h1
+      obtain ⟨r, st'⟩ := res
+      cases r with
+      | ok dec => dsimp only; split <;> exact h1
+      | raise e => exact h1
+      | ret v => exact h1
+      | oom => exact h1
+  generalize sortPart env o x xs st = res at hs ⊢
+  obtain ⟨r, st'⟩ := res
+  cases r <;> exact hs
+
+theorem cacheOf_consF (src : Src) (v : Val) : ∀ f ∈ cacheOf src v, ConsF f := by
+  intro f hf
+  unfold cacheOf at hf
+  cases src <;> simp at hf
+  subst hf; trivial
+
 theorem withFrame_consF (mapping : Bool) (v : Val) :
     ConsF (if mapping = true then (match v with | .dict kvs => Frame.dict kvs | _ => Frame.bad)
            else Frame.inst (match v with | .tuple [x] => x | v => v) []) := by
@@ -727,6 +864,61 @@ theorem renderBlk_step (env : Env) (fuel : Nat) (ih : IH env fuel) (b : Blk) (st
     | raise e => exact hr
     | ret v => exact hr
     | oom => exact hr
+  | inx_ src o x body els =>
+    unfold renderBlk
+    dsimp only
+    have hr := ih.evalSrc src st h
+    generalize evalSrc env fuel src st = res at hr
+    obtain ⟨r, st'⟩ := res
+    cases r with
+    | ok v =>
+      dsimp only
+      split
+      · split <;> exact hr
+      · split
+        · rw [oneRes_snd]; exact ih.renderJoined _ _ hr
+        · exact hr
+      · rename_i _ xs hne heq
+        have ha := arrange_cons env o x xs st' hr
+        generalize arrange env o x xs st' = resa at ha ⊢
+        obtain ⟨ra, st1⟩ := resa
+        cases ra with
+        | ok ys =>
+          dsimp only
+          have hcc := cacheOf_consF src v
+          generalize cacheOf src v = cache at hcc ⊢
+          cases x.batch with
+          | none =>
+            dsimp only
+            have hl := ih.inLoop { items := ys, mapping := o.mapping, prefix_ := o.prefix_ } o body 0 _
+              (cons_push_seq st1 { items := ys, mapping := o.mapping, prefix_ := o.prefix_ } cache hcc ha)
+            generalize inLoop env fuel { items := ys, mapping := o.mapping, prefix_ := o.prefix_ } o body 0
+                { st1 with stack := (Frame.seq { items := ys, mapping := o.mapping, prefix_ := o.prefix_ } :: cache) ++ st1.stack } = res2 at hl ⊢
+            obtain ⟨r2, st2⟩ := res2
+            have hfin := cons_drop st2 (Frame.seq { items := ys, mapping := o.mapping, prefix_ := o.prefix_ } :: cache).length hl
+            cases r2 with
+            | ok ps => simp only; split <;> exact hfin
+            | raise e => exact hfin
+            | ret x => exact hfin
+            | oom => exact hfin
+          | some bp =>
+            dsimp only
+            have hq := ih.getitem (txt "QUERY_STRING") true st1 ha
+            generalize getitem env fuel (txt "QUERY_STRING") true st1 = resq at hq ⊢
+            obtain ⟨rq, st2⟩ := resq
+            have hb := ih.inBatch (batchInit { items := ys, mapping := o.mapping, prefix_ := o.prefix_ } (bwinOf bp ys.length))
+              o bp (bwinOf bp ys.length) body els cache st2 hcc hq
+            cases rq with
+            | oom => exact hq
+            | ok q => dsimp only; rw [oneRes_snd]; exact hb
+            | raise e => dsimp only; rw [oneRes_snd]; exact hb
+            | ret q => dsimp only; rw [oneRes_snd]; exact hb
+        | raise e => exact ha
+        | ret v => exact ha
+        | oom => exact ha
+    | raise e => exact hr
+    | ret v => exact hr
+    | oom => exact hr
 
 /-- **every interpreter function keeps the attribute caches consistent** -/
 theorem all_cons (env : Env) : ∀ fuel, IH env fuel := by
@@ -749,6 +941,8 @@ theorem all_cons (env : Env) : ∀ fuel, IH env fuel := by
       renderBlk := renderBlk_step env n ih
       condLoop := condLoop_step env n ih
       inLoop := inLoop_step env n ih
+      inLoopB := inLoopB_step env n ih
+      inBatch := inBatch_step env n ih
       letLoop := letLoop_step env n ih }
 
 end DTML.Lemmas.Cache
